@@ -1267,6 +1267,17 @@ class _Ev:
                                           keywords=[ast.keyword(arg=k, value=v) for k, v in kwargs]), None)]
                 return self.effect_call('self.' + meth, ast.Attribute(value=recv, attr=meth, ctx=ast.Load()),
                                         args, kwargs, st, ln)
+            # X.pop(k) is  v = X[k]; del X[k]  (dict key or list index alike)
+            if meth == 'pop' and len(args) == 1 and not kwargs and not self.pure:
+                node = ast.Subscript(value=recv, slice=args[0], ctx=ast.Load())
+                key = plain(term(node))
+                val = st.heap[key] if key in st.heap else self.tag(node, key, st)
+                st.effects.append(Effect('del', target=key, lineno=ln, epoch=st.epoch))
+                x._invalidate(st, key)
+                st.heap.pop(key, None)
+                st.bump(key)
+                st.known = {}
+                return [(st, val, None)]
             # module function through import (random.uniform, heapq.heappush ...)
             full = rterm + '.' + meth
             if meth in PURE_METHODS or full in x.opts.pure_calls:
